@@ -64,12 +64,17 @@ LastKid(N, parent) == IF N[parent].c = <<>> THEN 0 ELSE N[parent].c[Len(N[parent
 AddText(st, v, sp) ==
     LET cur == Cur(st)
         last == LastKid(st.N, cur)
-    IN IF v = <<>> THEN st
+    IN IF v = <<>> THEN
+           \* no characters (an empty CDATA section): no node; behind a text node its span may or may not be taken to
+           \* reach over it (e1: the alternative end, see TraceParse)
+           IF last # 0 /\ st.N[last].k = "text"
+           THEN [st EXCEPT !.spans = [j \in 1..Len(@) |-> IF @[j].id = last /\ @[j].kind = "text" THEN [@[j] EXCEPT !.e1 = sp.e] ELSE @[j]]]
+           ELSE st
        ELSE IF last # 0 /\ st.N[last].k = "text"
        THEN [st EXCEPT !.N = [st.N EXCEPT ![last].t = @ \o v],
-                       !.spans = [j \in 1..Len(@) |-> IF @[j].id = last /\ @[j].kind = "text" THEN [@[j] EXCEPT !.e = sp.e] ELSE @[j]]]
+                       !.spans = [j \in 1..Len(@) |-> IF @[j].id = last /\ @[j].kind = "text" THEN [@[j] EXCEPT !.e = sp.e, !.e1 = sp.e] ELSE @[j]]]
        ELSE [st EXCEPT !.N = AddChild(st.N, cur, NewNode("text", "", "", v, "", FALSE)),
-                       !.spans = Append(@, [id |-> Len(st.N) + 1, kind |-> "text", s |-> sp.s, e |-> sp.e])]
+                       !.spans = Append(@, [id |-> Len(st.N) + 1, kind |-> "text", s |-> sp.s, e |-> sp.e, e1 |-> sp.e])]
 
 RECURSIVE AddDecls(_, _, _, _)
 \* namespace nodes for the declarations of a start tag, in written order
